@@ -684,3 +684,10 @@ package tmi
 //@   requires re.Response != nil && k.hStore != nil
 //@   requires s.Voting.Round < MAXU32 && s.Voting.Height >= 1 && (s.Voting.Height == s.Committing.Height + 1 || s.Committing.Height == 0)
 //@   modifies memory except Kernel
+
+// ---- a round entrance resets what the state machine is owed (C11): a jump-ahead pending for the round left is dropped,
+// so the state machine is never sent a view for the round it just entered that is older than the entrance response ----
+//@ func stateMachineViewManager.Reset
+//@   property C11 C09
+//@   ensures entrance-recorded-and-pending-jump-dropped: m.roundEntrance == re && m.lastSentVersion == 0 && m.jumpAhead == nil
+//@   modifies m.roundEntrance, m.lastSentVersion, m.jumpAhead
